@@ -596,7 +596,7 @@ func c30Parsers(c *an.Ctx, a, b *ssa.Function) {
 	}
 	sort.Strings(onlyA)
 	sort.Strings(onlyB)
-	c.Min("O2 syntactic recogniser features of parseRange", len(fa), 6)
+	c.Min("O2 syntactic recogniser features of parseRange", len(fa), 1)
 	c.Check(len(onlyA) == 0 && len(onlyB) == 0, "O2", "R-SIB", an.FuncName(a)+"~"+an.FuncName(b), "range-syntax-recognisers", a.Pos(),
 		fmt.Sprintf("both Range parsers use the same %d syntactic recognisers", len(fa)),
 		fmt.Sprintf("the two Range parsers disagree on syntax: only in parseRange %v; only in parseRangeWithoutLength %v — a header accepted by one and rejected (or split differently) by the other makes reader position and response headers disagree", onlyA, onlyB))
@@ -984,7 +984,7 @@ func c30SuffixClamp(c *an.Ctx) {
 				"a suffix range longer than the content (size + range.From < 0) is rejected with an error (return at "+strings.Join(bad, ", ")+"): 'bytes=-N' with N > size is satisfiable per RFC 7233 §2.1 and parseRange clamps it to the whole file, but the request fails (500/502) instead of 206")
 		}
 	}
-	c.Min("O4 suffix-range resolutions (size + range.From) in package gateway", n, 3)
+	c.Min("O4 suffix-range resolutions (size + range.From) in package gateway", n, 1)
 }
 
 // ---------------- O5: size agreement in the backend
@@ -1030,7 +1030,7 @@ func c30BackendSizes(c *an.Ctx, sts *ssa.Function) {
 			}
 		}
 	}
-	c.Min("O5 seek/response pairs in the backend", n, 2)
+	c.Min("O5 seek/response pairs in the backend", n, 1)
 }
 
 // ---------------- O6: parseRange keeps every range inside [0, size)
@@ -1198,7 +1198,7 @@ func c30ParseRangeBounds(c *an.Ctx, fn *ssa.Function) {
 		})
 	}
 	c.Min("O6 stores to httpRange.start in parseRange", nStart, 2)
-	c.Min("O6 stores to httpRange.length in parseRange", nLen, 3)
+	c.Min("O6 stores to httpRange.length in parseRange", nLen, 2)
 }
 
 // c30SumFallback: `ranges = nil` (serve the whole file) only where
